@@ -29,8 +29,9 @@ LAYOUT_NOT_RR = (0, 1)
 BASES = (10, 16, 2)
 FINDING_SKIP_KEY = "skip-field-determines-layout-of-emitted-field"
 FINDING_ARRAY_KEY = "multiline-array-elements-not-comma-separated"
-FINDING_ENUM_KEY = "negative-signed-enum-in-wider-bits-container"
-FINDING_ANON_KEY = "skip-on-anonymous-bits-subfield-ignored"
+# fixed in /repo (f572d62, b3c9cb3): the pinned inputs stay in the run, nothing is routed to them
+FIXED_ENUM_KEY = "negative-signed-enum-in-wider-bits-container"
+FIXED_ANON_KEY = "skip-on-anonymous-bits-subfield-ignored"
 
 DRIVER_PRELUDE = r"""
 #include <cstdint>
@@ -334,6 +335,8 @@ def wval_tokens(node, parsed, orders):
             return ["f", I.hexs(parsed[1])]
         return ["i", sc.cpp_int_type(), str(v)]
     if kind == "comment":
+        if isinstance(node[1], bool):
+            return ["b", "1" if node[1] else "0"]
         return ["i", "i64", str(node[1])]
     if kind == "array":
         items = node[1]
@@ -386,13 +389,16 @@ def _attach(ft, node):
 
 
 def check_intended_order(st, names, problems, where):
-    """Property statement: fields are emitted after the fields they depend on."""
-    deps = G.intended_deps(st)
+    """Property statement: fields are emitted after the fields they depend on.  The dependency
+    relation is computed from the source text the generator wrote (condition / location / size /
+    `let` expression of every field), transitively through fields that are not in the text
+    themselves (read-only or skipped virtual fields) — never from the compiler's own ordering."""
+    deps = G.transitive_deps(st)
     seen = set()
     for n in names:
-        for d in deps.get(n, []):
+        for d in sorted(deps.get(n, ())):
             if d in names and d not in seen:
-                problems.append("%s: field %s is written before %s, which it depends on" % (where, n, d))
+                problems.append("ORDER: %s: field %s is written before %s, which it depends on" % (where, n, d))
         seen.add(n)
 
 
@@ -547,7 +553,7 @@ def judge(prep, st, built, opt, line, stats, int_checks, tok_texts, wvals=None):
                         n, "missing" if c else "present", c))
         # 2. round trip
         problems.extend(judge_roundtrip(kv, built, d1, d2))
-    if wvals is not None and ((not rr and FINDING_ANON_KEY not in built.flags) or (parsed is not None and not problems)):
+    if wvals is not None and (not rr or (parsed is not None and not problems)):
         try:
             tree = ("struct", attach_struct_names(st, built.tree), st.name)
             toks = wval_tokens(tree, parsed, prep["orders"])
@@ -751,21 +757,6 @@ def run_modules(chk, mods, buffers_per_struct, r, model_ok, tier, compiler="clan
         chk.extra["txt_model_disagreements"] = chk.extra.get("txt_model_disagreements", 0) + dis
 
 
-def anon_skip_only(problems, built):
-    """Every problem is "unexpected names" at some struct level, the unexpected names all being
-    anonymous-bits subfields marked Skip, nothing missing."""
-    import ast
-    import re
-    for p in problems:
-        m = re.search(r"\(missing (\[.*?\]), unexpected (\[.*?\])\)$", p)
-        if not m:
-            return False
-        missing, extra = ast.literal_eval(m.group(1)), ast.literal_eval(m.group(2))
-        if missing or not extra or not set(extra) <= built.anon_skip_names:
-            return False
-    return True
-
-
 def add_rval(rvals, shapes, stats, st, kv):
     if id(st) not in shapes:
         try:
@@ -790,12 +781,8 @@ def report(chk, stats, reported, mod, origin, prep, st, built, opt, kv, problems
     text = I.unhex(kv.get("text", ""))
     keys, unexplained = [], []
     for p in problems:
-        if FINDING_ANON_KEY in built.flags and anon_skip_only([p], built):
-            k = FINDING_ANON_KEY
-        elif p.startswith("RT:") and skip_pred:
+        if p.startswith("RT:") and skip_pred:
             k = FINDING_SKIP_KEY
-        elif p.startswith("RT:") and FINDING_ENUM_KEY in built.flags:
-            k = FINDING_ENUM_KEY
         elif (p.startswith("RT:") and second is not None and opt[0] == 1 and kv.get("upd") != "1"
               and has_long_array(parsed)):
             k = FINDING_ARRAY_KEY
@@ -806,7 +793,7 @@ def report(chk, stats, reported, mod, origin, prep, st, built, opt, kv, problems
             keys.append(k)
     if unexplained:
         keys = [None]
-    elif FINDING_ARRAY_KEY in keys and FINDING_SKIP_KEY not in keys and FINDING_ENUM_KEY not in keys:
+    elif FINDING_ARRAY_KEY in keys and FINDING_SKIP_KEY not in keys:
         second.append((ci, ln + " " + I.hexs(add_commas(text))))
     for key in keys:
         if key is not None:
@@ -826,7 +813,18 @@ def report(chk, stats, reported, mod, origin, prep, st, built, opt, kv, problems
 
 def struct_features(st):
     out = set()
+    pos = {f.name: i for i, f in enumerate(st.fields)}
+    by = G.field_by_name(st)
     for f in st.fields:
+        layout_deps = ([f.cond[0]] if f.cond else []) + ([f.dyn_count] if f.dyn_count else []) + \
+            ([f.dyn_offset] if f.dyn_offset else [])
+        for d in layout_deps:
+            if d in by and by[d].virtual:
+                out.add("layout_through_virtual")
+                if any(pos.get(s, -1) > pos[f.name] for s in G.physical_sources(st, d)):
+                    out.add("layout_through_virtual_input_declared_later")
+            elif pos.get(d, -1) > pos[f.name]:
+                out.add("layout_input_declared_later")
         if f.cond:
             out.add("conditional")
         if f.attr:
@@ -860,7 +858,8 @@ def fixed_built(buf, mask, dump, emitted, tree):
 
 
 def pinned_enum():
-    """findings.d/C06.json: negative value of a signed enum inside a wider bits container."""
+    """findings.d/C06.json (fixed, f572d62): negative value of a signed enum in a full-width field
+    inside a wider bits container; used to be refused by UpdateFromText."""
     e = G.EnumT("Ee", 16, True, [("NEG", -5), ("POS", 7)])
     u8, en = _u8(), G.Scalar("enum", 16, e)
     bt = G.StructT("FooAnon", "bits", [G.Field("a", ("scalar", u8), 0, 8), G.Field("e", ("scalar", en), 8, 16),
@@ -870,8 +869,7 @@ def pinned_enum():
     mod = G.Module("pinenum", [e], [st], "LittleEndian")
     built = fixed_built(b"\x01\xfb\xff\x02", "EEEE", [("a", "1"), ("e", "-5"), ("b", "2")], {"a", "e", "b"},
                         [("a", ("scalar", u8, 1)), ("e", ("scalar", en, -5)), ("b", ("scalar", u8, 2))])
-    built.flags.add(FINDING_ENUM_KEY)
-    return mod, "pinned:" + FINDING_ENUM_KEY, {"Foo": [built]}
+    return mod, "pinned:fixed:" + FIXED_ENUM_KEY, {"Foo": [built]}
 
 
 def pinned_f1():
@@ -899,7 +897,7 @@ def pinned_f13():
 
 
 def pinned_anon_skip():
-    """findings.d/C06.json: Skip on a field inside an anonymous `bits` is ignored."""
+    """findings.d/C06.json (fixed, b3c9cb3): Skip on a field inside an anonymous `bits` used to be ignored."""
     u4 = G.Scalar("uint", 4)
     lo = G.Field("lo", ("scalar", u4), 0, 4, attr="Skip")
     hi = G.Field("hi", ("scalar", u4), 4, 4)
@@ -910,9 +908,7 @@ def pinned_anon_skip():
     mod = G.Module("pinanon", [], [st], "LittleEndian")
     built = fixed_built(b"\xa5\x07", "UE", [("lo", "5"), ("hi", "10"), ("z", "7")], {"hi", "z"},
                         [("hi", ("scalar", u4, 10)), ("z", ("scalar", _u8(), 7))])
-    built.flags.add(FINDING_ANON_KEY)
-    built.anon_skip_names.add("lo")
-    return mod, "pinned:" + FINDING_ANON_KEY, {"Foo": [built]}
+    return mod, "pinned:fixed:" + FIXED_ANON_KEY, {"Foo": [built]}
 
 
 def pinned_array():
